@@ -17,14 +17,32 @@ extern "C" {
 unsigned g_next_word, g_next_line, g_start0, g_end; int g_ok, g_bad_format, g_lines, g_tlen, g_blen;
 }
 Memory::Memory() {} Memory::~Memory() {}
+#ifndef UNIT
+#define UNIT 2
+#define MAXLEN 6
+#define RANGEFN disasm_range_tms9900
+#define DISFN disasm_tms9900
+#define DISHDR disasm/tms9900.h
+#define RANGEINC gen/disasm_range_tms9900.inc
+#endif
+#define VSTR(x) #x
+#define VXSTR(x) VSTR(x)
+#if UNIT == 2
 uint16_t Memory::read16(uint32_t a) { if (a != g_next_word) g_ok = 0; g_next_word += 2; return nondet_ushort(); }
+#define TLEN 5
+#define VMAX 0xffff
+#else
+uint8_t Memory::read8(uint32_t a) { if (a != g_next_word) g_ok = 0; g_next_word += 1; return nondet_uchar(); }
+#define TLEN 3
+#define VMAX 0xff
+#endif
 /* string contracts with ghost lengths: snprintf(temp, n, "%04x ", 16-bit value) writes 5 characters + NUL;
    strcat appends the last formatted string to the opcode column, which starts empty when its first byte is NUL */
 static int vs_snprintf(char *d, size_t n, const char *f, unsigned v)
 {
-  OBL(f[0] == '%' && f[4] == ' ' && f[5] == 0 && v <= 0xffff && n >= 6 && n <= __CPROVER_OBJECT_SIZE(d) - __CPROVER_POINTER_OFFSET(d), "C08.range: the word is formatted inside its temporary buffer");
-  g_tlen = 5; d[0] = 'x';
-  return 5;
+  OBL(f[0] == '%' && f[4] == ' ' && f[5] == 0 && v <= VMAX && n >= TLEN + 1 && n <= __CPROVER_OBJECT_SIZE(d) - __CPROVER_POINTER_OFFSET(d), "C08.range: the word is formatted inside its temporary buffer");
+  g_tlen = TLEN; d[0] = 'x';
+  return TLEN;
 }
 static char *vs_strcat(char *d, const char *s)
 {
@@ -43,17 +61,17 @@ static int vf_printf(const char *f, uint32_t a, char *b, char *i, int c, int d) 
 #define printf vf_printf
 #define snprintf vs_snprintf
 #define strcat vs_strcat
-#include "disasm/tms9900.h"
-int disasm_tms9900(Memory *memory, uint32_t address, char *instruction, int length, int flags, int *cycles_min, int *cycles_max)
+#include VXSTR(DISHDR)
+int DISFN(Memory *memory, uint32_t address, char *instruction, int length, int flags, int *cycles_min, int *cycles_max)
 {
   OBL(length == 128 && __CPROVER_OBJECT_SIZE(instruction) - __CPROVER_POINTER_OFFSET(instruction) >= 128, "C08.range: the disassembler is given the 128-byte text buffer");
   instruction[0] = 0;
   *cycles_min = nondet_int(); *cycles_max = nondet_int();
-  int k = nondet_int() % 3; if (k < 0) k = -k;
+  int k = nondet_int(); ASSUME(k >= 1 && k <= MAXLEN / UNIT);
   g_next_line = address;
-  return 2 + 2 * k;
+  return UNIT * k;
 }
-#include "gen/disasm_range_tms9900.inc"
+#include VXSTR(RANGEINC)
 #undef printf
 #undef snprintf
 #undef strcat
@@ -61,11 +79,11 @@ extern "C" void h_range()
 {
   Memory m;
   unsigned start = nondet_uint(), end = nondet_uint();
-  ASSUME(start <= end && end < (1u << 31) && (start & 1) == 0);
+  ASSUME(start <= end && end < (1u << 31) && (start % UNIT) == 0);
   g_start0 = start; g_end = end; g_next_word = start; g_next_line = start; g_ok = 1; g_bad_format = 0; g_lines = 0; g_tlen = 0; g_blen = 0;
-  disasm_range_tms9900(&m, nondet_uint(), start, end);
+  RANGEFN(&m, nondet_uint(), start, end);
   OBL(g_ok, "C08.range: every word of the range is shown exactly once, in increasing order, on the line of its instruction");
   OBL(!g_bad_format, "C08.range: every line is written with one of the function's formats");
-  OBL(g_next_word > end && g_next_word - end <= 6, "C08.range: the range is covered up to the first instruction boundary after its end");
+  OBL(g_next_word > end && g_next_word - end <= MAXLEN, "C08.range: the range is covered up to the first instruction boundary after its end");
   CANARY("h_range end");
 }
